@@ -922,8 +922,12 @@ func rpcGetEntryAndProof(ctx context.Context, li *logInfo, req *trillian.GetEntr
 	if err != nil {
 		return nil, li.toHTTPStatus(err), fmt.Errorf("backend GetEntryAndProof request failed: %s", err)
 	}
-	if err := li.issuanceChainService.FixLogLeaf(ctx, rsp.Leaf); err != nil {
-		return nil, http.StatusInternalServerError, fmt.Errorf("failed to fix log leaf: %v", rsp)
+	// The leaf is an optional part of the response (absent when the tree is
+	// too small); the caller reports its absence after checking the tree size.
+	if rsp.Leaf != nil {
+		if err := li.issuanceChainService.FixLogLeaf(ctx, rsp.Leaf); err != nil {
+			return nil, http.StatusInternalServerError, fmt.Errorf("failed to fix log leaf: %v", rsp)
+		}
 	}
 
 	return rsp, http.StatusOK, nil
